@@ -261,7 +261,9 @@ def read_cur(path):
 def run_pbt(prop, unit, tier, seed, known_ids, only=None):
     flavour = unit.get("flavour", "num")
     exe = build_unit(unit, flavour)
-    nshards = int(unit.get("shards", NCPU))
+    # the number of shards fixes which cases are generated, so it must not depend on the machine or on VERIF_JOBS
+    # (VERIF_JOBS / the core count only limit how many shards run at the same time)
+    nshards = int(unit.get("shards", 16))
     cases = int(unit.get(tier + "_cases", unit.get("quick_cases", 1000)))
     per = max(1, cases // nshards)
     stall = float(unit.get("stall_s", 60 if tier == "quick" else 300))
@@ -274,6 +276,7 @@ def run_pbt(prop, unit, tier, seed, known_ids, only=None):
     env["UBSAN_OPTIONS"] = "print_stacktrace=1:halt_on_error=1"
     env["VF_TMP"] = tmp
     procs = []
+    pending = []
     for k in range(nshards):
         out = os.path.join(tmp, "shard%d.json" % k)
         cur = os.path.join(tmp, "shard%d.cur" % k)
@@ -285,11 +288,14 @@ def run_pbt(prop, unit, tier, seed, known_ids, only=None):
             cmd += ["--calibrate", "1"]
         if known_ids:
             cmd += ["--known", ",".join(known_ids)]
-        errf = open(os.path.join(tmp, "shard%d.err" % k), "wb")
-        p = subprocess.Popen(cmd, stdout=errf, stderr=errf, env=env, cwd=tmp)
-        procs.append(dict(p=p, out=out, cur=cur, k=k, last=(0, time.time()), state="run", errf=errf))
+        pending.append(dict(cmd=cmd, out=out, cur=cur, k=k))
     t0 = time.time()
-    while any(s["state"] == "run" for s in procs):
+    while pending or any(s["state"] == "run" for s in procs):
+        while pending and sum(1 for s in procs if s["state"] == "run") < max(1, NCPU):
+            d = pending.pop(0)
+            errf = open(os.path.join(tmp, "shard%d.err" % d["k"]), "wb")
+            p = subprocess.Popen(d["cmd"], stdout=errf, stderr=errf, env=env, cwd=tmp)
+            procs.append(dict(p=p, out=d["out"], cur=d["cur"], k=d["k"], last=(0, time.time()), state="run", errf=errf))
         time.sleep(0.2)
         now = time.time()
         for s in procs:
@@ -414,7 +420,7 @@ def replay_pbt(exe, path, known_ids, timeout=600):
 def run_fuzz(prop, unit, tier, seed, known_ids):
     exe = build_unit(unit, "fuzz")
     name = os.path.basename(unit["src"])[:-4]
-    jobs = int(unit.get("jobs", NCPU))
+    jobs = int(unit.get("jobs", 16))      # fixed: the per-job seeds and run counts define the campaign (see run_pbt)
     runs = int(unit.get(tier + "_runs", unit.get("quick_runs", 20000)))
     per = max(1, runs // jobs)
     max_len = int(unit.get("max_len", 256))
@@ -448,19 +454,33 @@ def run_fuzz(prop, unit, tier, seed, known_ids):
         e["VF_TMP"] = work
         if known_ids:
             e["VF_KNOWN"] = ",".join(known_ids)
-        errf = open(os.path.join(jd, "log"), "wb")
-        procs.append(dict(p=subprocess.Popen(cmd, stdout=errf, stderr=errf, env=e, cwd=work), jd=jd, errf=errf, j=j))
+        procs.append(dict(p=None, cmd=cmd, env=e, work=work, jd=jd, errf=None, j=j))
     t0 = time.time()
     timed_out = False
-    for s in procs:
-        left = max(1.0, budget - (time.time() - t0))
-        try:
-            s["p"].wait(timeout=left)
-        except subprocess.TimeoutExpired:
-            s["p"].kill()
-            s["p"].wait()
+    waiting = list(procs)
+    running = []
+    while waiting or running:
+        while waiting and len(running) < max(1, NCPU):
+            s = waiting.pop(0)
+            s["errf"] = open(os.path.join(s["jd"], "log"), "wb")
+            s["p"] = subprocess.Popen(s["cmd"], stdout=s["errf"], stderr=s["errf"], env=s["env"], cwd=s["work"])
+            running.append(s)
+        time.sleep(0.1)
+        over = time.time() - t0 > budget
+        for s in list(running):
+            if s["p"].poll() is None:
+                if not over:
+                    continue
+                s["p"].kill()
+                s["p"].wait()
+                timed_out = True
+            s["errf"].close()
+            running.remove(s)
+        if over and waiting:      # budget exhausted before every job could start: inconclusive, never a violation
             timed_out = True
-        s["errf"].close()
+            for s in waiting:
+                s["skipped_start"] = True
+            waiting = []
     agg = dict(sub="%s.fuzz.%s" % (prop, name), rule=unit.get("rule", "libFuzzer target " + name), evaluations=0,
                nontrivial=0, distinct_nontrivial=0, classes={}, samples=[], cov=0, ft=0, known={})
     failures = []
@@ -512,7 +532,7 @@ def run_fuzz(prop, unit, tier, seed, known_ids):
                 failures.append(dict(kind="hang", sub=agg["sub"], artifact=a, log=lg[-1500:]))
             else:
                 notes.append("job %d: ignored artifact %s (load noise)" % (s["j"], base))
-        rc = s["p"].returncode
+        rc = s["p"].returncode if s["p"] is not None else None
         if rc not in (0, None) and not arts:
             notes.append("job %d exited rc=%s without artifact: %s" % (s["j"], rc, lg[-400:]))
             if "ERROR: " in lg or "runtime error" in lg:
